@@ -281,6 +281,12 @@ let handle fields =
   | ["reparse"; c; s] ->
       show_result (fun ((st, t), r2) -> show_stmt st ^ "|" ^ field_of_ustr t ^ "|" ^ show_result show_stmt r2)
         (reparse (ctx_of_field c) (ustr_of_field s))
+  | ["frag"; c; s] ->
+      (* is the parsed declaration inside the fragment of the C09 round-trip theorems? *)
+      let cx = ctx_of_field c in
+      (match parse_statement cx (ustr_of_field s) with
+       | Ok (SDecl d) -> if in_fragment cx d && text_fragment d then "IN" else "OUT"
+       | _ -> "NA")
   | ["names"; prefix; scope; fscope; fns] ->
       let fs = if fns = "" then [] else List.map fn_of (String.split_on_char ';' fns) in
       let p, sc, fsc = ustr_of_field prefix, ustr_of_field scope, ustr_of_field fscope in
